@@ -247,6 +247,14 @@ func init() {
 								continue
 							}
 							if ok, w := boundedChan(st.Chan); ok {
+								if w == "ctx.Done()" {
+									// the context must be the call's own one, handed down from the exchange function
+									c := strip(st.Chan, false).(*ssa.Call)
+									if ok2, w2 := isCallCtx(c.Call.Value, f, ex, cone, 0); !ok2 {
+										why = "the context whose Done() is watched is not the call's context: " + w2
+										continue
+									}
+								}
 								bounded, why = true, w
 								break
 							} else if w != "" {
@@ -289,6 +297,76 @@ func init() {
 				})
 			}
 		}})
+}
+
+// isCallCtx: context value v inside f is the context of the call being exchanged: the context
+// parameter of the exchange function ex, handed down unchanged (or narrowed by With*) through every
+// call site inside the cone.
+func isCallCtx(v ssa.Value, f, ex *ssa.Function, cone map[*ssa.Function]bool, depth int) (bool, string) {
+	if depth > 6 {
+		return false, "context provenance too deep"
+	}
+	switch x := strip(v, false).(type) {
+	case *ssa.Parameter:
+		if f == ex || f.Parent() == ex {
+			return true, ""
+		}
+		idx := -1
+		for i, p := range f.Params {
+			if p == x {
+				idx = i
+			}
+		}
+		sites := 0
+		var cs []*ssa.Function
+		for g := range cone {
+			cs = append(cs, g)
+		}
+		sort.Slice(cs, func(i, j int) bool { return fname(cs[i]) < fname(cs[j]) })
+		for _, g := range cs {
+			var bad string
+			eachInstr(g, func(in ssa.Instruction) {
+				c, ok := in.(*ssa.Call)
+				if !ok || c.Call.StaticCallee() != f || idx < 0 || idx >= len(c.Call.Args) || bad != "" {
+					return
+				}
+				sites++
+				if ok, w := isCallCtx(c.Call.Args[idx], g, ex, cone, depth+1); !ok {
+					bad = fmt.Sprintf("%s passes %s", fname(g), w)
+				}
+			})
+			if bad != "" {
+				return false, bad
+			}
+		}
+		if sites == 0 {
+			return false, "no call site of " + fname(f) + " in the exchange path"
+		}
+		return true, ""
+	case *ssa.Call:
+		id := funcID(calleeObj(&x.Call))
+		if id == "context.Background" || id == "context.TODO" {
+			return false, id + "(), which is never done"
+		}
+		return false, "a context returned by " + id
+	case *ssa.Extract:
+		if c, ok := x.Tuple.(*ssa.Call); ok && x.Index == 0 {
+			switch funcID(calleeObj(&c.Call)) {
+			case "context.WithTimeout", "context.WithDeadline":
+				return true, ""
+			case "context.WithCancel":
+				return isCallCtx(c.Call.Args[0], f, ex, cone, depth+1)
+			}
+		}
+	case *ssa.Phi:
+		for _, e := range x.Edges {
+			if ok, w := isCallCtx(e, f, ex, cone, depth+1); !ok {
+				return false, w
+			}
+		}
+		return true, ""
+	}
+	return false, "a context of unknown provenance (" + pathOf(v) + ")"
 }
 
 func selectDesc(s *ssa.Select) string {
